@@ -60,6 +60,10 @@ func tableConcat(L *LState) int {
 			return 1
 		}
 	}
+	if i > j {
+		L.Push(emptyLString)
+		return 1
+	}
 	i = intMax(intMin(i, tbl.Len()), 1)
 	j = intMin(intMin(j, tbl.Len()), tbl.Len())
 	if i > j {
